@@ -119,7 +119,7 @@ def judge(name, rows, dev):
 MODES = {
     # name: (active classes, pool alternatives, rdkit alternatives, cost function, fine points)
     "timeouts": (("pool",), ("complete", "timeout"), ("normal",), lambda c, l, a: 0, False),
-    "faults": (("pool", "rdkit"), ("complete", "timeout"), ("normal", "cancel", "raise"), lambda c, l, a: 1, False),
+    "faults": (("pool", "rdkit", "poolnew"), ("complete", "timeout"), ("normal", "cancel", "raise"), lambda c, l, a: 1, False),
     "zombie": (("pool", "land"), ("complete", "zombie"), ("normal",), None, False),
     "zombie-fine": (("pool", "land"), ("complete", "zombie"), ("normal",), None, True),
 }
